@@ -16,7 +16,9 @@ RULE = ("case (in-process) = (items with keys and record counts, n_workers, sche
         "order, sketch combination cms/hh/hll, list or generator); all schedules of <= 4 items on <= 3 workers are enumerated (thorough: "
         "<= 6 items on <= 4 workers, sharded), n_workers 1..9 with random schedules; case (spawned) = real parallel_add with n_workers in "
         "{1,2,3,5} and callbacks that sleep pseudo-randomly and log (pid, item); non-trivial = at least two workers received items, or "
-        "an odd number of workers (carried sketch in pairwise merging); distinct = by case digest")
+        "an odd number of workers (carried sketch in pairwise merging); distinct = by case digest; also: 10..40 workers with an item each, "
+        "reported core counts 1/2/3/4/64/host, HyperLogLog seeds crafted so that a key takes the maximum rank 64-p+1, items of every kind "
+        "(dict, int incl. 0, bytes, str, tuple, generator); thorough: one real run with a 38 s consumer and one with a 54 s producer")
 ASSUMPTIONS = ["in-process runs replace multiprocessing's spawn context by a synchronous one (helpers.get_context rebound from outside); pickling, real exit codes and OS scheduling are only seen by the spawned runs",
                "Linux, spawn start method, CPython 3.12"]
 LEVEL_TEXT = ("The real parallel_add, _fill_queue, _worker, attach_shared_memory, parallel_merging and _merge_worker are executed for every "
